@@ -384,11 +384,21 @@ func containsText(n ast.Node, text string) bool {
 
 // waitResponseLockFacts classifies every exit of the wait loop taken while c.rlock is held.
 func waitResponseLockFacts(fd *ast.FuncDecl) (facts map[string]bool, err error) {
-	facts = map[string]bool{"peekErr": false, "noProgress": false, "take": false, "yield": false}
+	facts = map[string]bool{"peekErr": false, "noProgress": false, "take": false, "yield": false, "leave": false}
+	recv := "c" // the receiver's name, whatever it is called
+	if fd.Recv != nil && len(fd.Recv.List) == 1 && len(fd.Recv.List[0].Names) == 1 {
+		recv = fd.Recv.List[0].Names[0].Name
+	}
 	var loop *ast.ForStmt
-	for _, st := range fd.Body.List {
+	for i, st := range fd.Body.List {
 		if f, ok := st.(*ast.ForStmt); ok {
 			loop = f
+			// c.leave() on the way out: a statement after the loop
+			for _, after := range fd.Body.List[i+1:] {
+				if isCallOn(after, recv, "leave") {
+					facts["leave"] = true
+				}
+			}
 		}
 	}
 	if loop == nil {
@@ -413,17 +423,17 @@ func waitResponseLockFacts(fd *ast.FuncDecl) (facts map[string]bool, err error) 
 				block := &ast.BlockStmt{List: list[:i]}
 				unlocked := false
 				for _, p := range list[:i] {
-					if isCallOn(p, "c.rlock", "Unlock") {
+					if isCallOn(p, recv+".rlock", "Unlock") {
 						unlocked = true
 					}
 				}
 				kind := ""
 				switch {
-				case containsText(block, "c.conn.Close"):
+				case containsText(block, recv+".conn.Close"):
 					kind = "peekErr"
 				case containsText(block, "io.ErrNoProgress"):
 					kind = "noProgress"
-				case containsText(block, "&c.rlock"):
+				case containsText(block, "&"+recv+".rlock"):
 					kind = "take"
 					unlocked = !unlocked // handing the lock over: it must NOT be unlocked here
 				default:
@@ -432,7 +442,28 @@ func waitResponseLockFacts(fd *ast.FuncDecl) (facts map[string]bool, err error) 
 				seen[kind]++
 				facts[kind] = unlocked
 			case *ast.ReturnStmt:
-				return fmt.Errorf("waitResponse: return inside the wait loop")
+				// an exit that bypasses the code after the loop (c.leave()): classified like a break, `leave` is lost
+				facts["leave"] = false
+				block := &ast.BlockStmt{List: list[:i]}
+				unlocked := false
+				for _, p := range list[:i] {
+					if isCallOn(p, recv+".rlock", "Unlock") {
+						unlocked = true
+					}
+				}
+				switch {
+				case containsText(block, recv+".conn.Close"):
+					seen["peekErr"]++
+					facts["peekErr"] = unlocked
+				case containsText(block, "io.ErrNoProgress"):
+					seen["noProgress"]++
+					facts["noProgress"] = unlocked
+				case containsText(block, "&"+recv+".rlock"):
+					seen["take"]++
+					facts["take"] = !unlocked
+				default:
+					return fmt.Errorf("waitResponse: unclassified return")
+				}
 			}
 		}
 		return nil
@@ -446,7 +477,7 @@ func waitResponseLockFacts(fd *ast.FuncDecl) (facts map[string]bool, err error) 
 		}
 	}
 	n := len(loop.Body.List)
-	facts["yield"] = n > 0 && isCallOn(loop.Body.List[n-1], "c.rlock", "Unlock")
+	facts["yield"] = n > 0 && isCallOn(loop.Body.List[n-1], recv+".rlock", "Unlock")
 	return facts, nil
 }
 
@@ -812,8 +843,8 @@ func extractConnLegacy(repo, root string) error {
 		return fmt.Errorf("untranslated: %v", err)
 	}
 	b.WriteString("/-- conn.go/batch.go: on which exit paths the Conn's read lock (rlock) is released / handed over -/\n")
-	fmt.Fprintf(&b, "def lockFacts : LockFacts := { peekErr := %v, noProgress := %v, yield := %v, take := %v, doBody := %v, apiVersions := %v, batchHandover := %v, batchClose := %v }\n\n",
-		wf["peekErr"], wf["noProgress"], wf["yield"], wf["take"], unlockAfter(connFns["do"], "waitResponse", false),
+	fmt.Fprintf(&b, "def lockFacts : LockFacts := { peekErr := %v, noProgress := %v, yield := %v, take := %v, leave := %v, doBody := %v, apiVersions := %v, batchHandover := %v, batchClose := %v }\n\n",
+		wf["peekErr"], wf["noProgress"], wf["yield"], wf["take"], wf["leave"], unlockAfter(connFns["do"], "waitResponse", false),
 		unlockAfter(connFns["ApiVersions"], "waitResponse", false), unlockAfter(connFns["ReadBatchWith"], "waitResponse", true),
 		batchCloseUnlocks(connFns["Batch.close"]))
 	b.WriteString("def callsOf (m : String) : List String := ((calls.find? (·.1 == m)).map (·.2)).getD []\n")
